@@ -337,6 +337,27 @@ def _required_forbidden(Q, ye, xe, tol, erode=None):
     return idx, req, forb
 
 
+def _backend_contradiction(T, qa, eb) -> bool:
+    """Back-end artefact filter, consulted only when a verdict is about to fail.
+
+    ``qa``/``eb`` are the two odc Geometries (same CRS) the code under test hands to shapely's ``disjoint``.  GEOS
+    3.13.1 (this image) answers ``intersects == False`` for polygons one of whose edges lies exactly inside an edge of
+    the other (e.g. a query edge running along a tile border of a rotated raster) although its own overlay gives a large
+    intersection area, its distance is 0 and the *prepared* predicate says True.  When the back-end contradicts
+    itself like that, the case is counted under excluded and not judged.
+    """
+    import shapely
+
+    a, b = qa.geom, eb.geom
+    inter = bool(shapely.intersects(a, b))
+    dist = float(shapely.distance(a, b))
+    area = float(shapely.area(shapely.intersection(a, b)))
+    if (not inter and (dist == 0 or area > 0)) or (inter and dist > 0):
+        T.exclude("backend_geos_predicate_contradicts_overlay")
+        return True
+    return False
+
+
 def _check_indexes(got, ye, xe, what):
     out = []
     for t in got:
@@ -400,6 +421,9 @@ def o_geom_same(case, T):
     gset = set(got)
     idx, req, forb = _required_forbidden(Q, ye, xe, tol)
     for t, r, f in zip(idx, req, forb):
+        if (r and t not in gset) or (f and t in gset):
+            if _backend_contradiction(T, g, gbt[t].extent):
+                continue
         if r:
             require(t in gset, "tile %r (px rows %d:%d cols %d:%d) intersects the %s query but is not returned; returned %d tiles %s",
                     t, ye[t[0]], ye[t[0] + 1], xe[t[1]], xe[t[1] + 1], q["kind"], len(got), sorted(gset)[:8])
@@ -484,6 +508,8 @@ def o_bbox_same(case, T):
     got = set(_check_indexes(list(gbt.tiles(wb)), ye, xe, "tiles(bbox)"))
     ry, rx = _check_ranges(gbt.range_from_bbox(wb), ye, xe)
     for t, r in zip(idx, req):
+        if r and t not in got and _backend_contradiction(T, wb.polygon, gbt[t].extent):
+            continue
         if r:
             require(t in got, "tiles(BoundingBox): tile %r (rows %d:%d cols %d:%d) intersects the box but is not returned; got %s",
                     t, ye[t[0]], ye[t[0] + 1], xe[t[1]], xe[t[1] + 1], sorted(got)[:8])
@@ -699,6 +725,10 @@ def o_query_other(case, T):
         got = set(_check_indexes(list(gbt.tiles(g)), ye, xe, "tiles(geometry, other crs)"))
         ry = rx = None
     for t, r, f in zip(idx, req, forb):
+        if (r and t not in got) or (f and mode == "geom" and t in got):
+            qq = (wb.polygon if mode == "bbox" else g).to_crs(gbt.base.crs, check_and_fix=True)
+            if _backend_contradiction(T, qq, gbt[t].extent):
+                continue
         if r:
             require(t in got, "%s query in %s on raster in %s: tile %r (rows %d:%d cols %d:%d) lies > %.3g px inside the reprojected query but is not returned; got %s",
                     mode, lb, la, t, ye[t[0]], ye[t[0] + 1], xe[t[1]], xe[t[1] + 1], band, sorted(got)[:8])
